@@ -138,7 +138,7 @@ def run(tier):
                 V.machinery_error(f"generated module broken ({fam[name]}): {ob['error']['msg']}")
             # a rejected design is outside C06 ("every ACCEPTED design")
         # (a) parses
-        recs, parsed = [], 0
+        recs, parsed, parsed_only = [], 0, []
         for f, top, text in texts:
             st, r = vlib.vhdl_reader.classify(text)
             if st == "syntax_error":
@@ -150,6 +150,11 @@ def run(tier):
                 # the all-branches typing pass elaborates and interprets the design; it is run on the generated designs and,
                 # in the thorough tier, on the (large) upstream designs too
                 big = f.startswith("corpus:") and (tier == "quick" or text.count("\n") > 1500)
+                if len(json.dumps(r)) > 1500000:
+                    # a few upstream designs are enormous (generated tables, > 10 k lines): they are parsed by the strict reader,
+                    # evaluating the predicates over them in TLC takes hours
+                    parsed_only.append(f)
+                    continue
                 recs.append({"id": f"{f}#{top}", "ast": r, "ifaces": {}, "typecheck": 0 if big else 1, "top": top.lower()})
         # (b) static predicates, evaluated by TLC
         recs.sort(key=lambda r: -len(json.dumps(r["ast"])))
@@ -173,7 +178,7 @@ def run(tier):
                                     {"clause": clause, "items": fnd[clause], "vhdl": text_of.get(did, "")})
     cov = {"programs": len(texts), "disagreements_checked": checked * len(CLAUSES), "evaluations": checked * len(CLAUSES),
            "distinct_nontrivial": checked, "upstream_reference_designs": ncorpus, "parsed": parsed,
-           "predicates": list(CLAUSES), "designs_with_findings_per_predicate": counts,
+           "predicates": list(CLAUSES), "parsed_only_too_large_for_tlc": parsed_only, "designs_with_findings_per_predicate": counts,
            "samples": [{"design": f, "top": top, "vhdl_lines": text.count("\n")} for f, top, text in texts[:: max(1, len(texts) // 4)][:4]],
            "rule": "every design is read by the strict VHDL reader (syntax, reserved words, basic identifiers) and the named VhdlStatic "
                    "predicates are evaluated on it by TLC: declared once per region (case-insensitive), no declaration hides a predefined "
